@@ -55,6 +55,8 @@ type resJ struct {
 
 type proxyJ struct {
 	Path     []string `json:"path"` // Go field names, outermost first (exported identifiers)
+	Embed    []bool   `json:"embed"` // per path element: the field is embedded (anonymous): it adds no name segment
+	PtrLevel []bool   `json:"ptr"`   // per path element (but the last): the nested struct is held by pointer
 	Tag      string   `json:"tag"`  // hex: name:"..." tag, "" = none
 	NS       string   `json:"ns"`   // hex: namespace given to UseService
 	Ctx      bool     `json:"ctx"`  // the proxy function takes a leading context.Context
@@ -524,7 +526,11 @@ func proxyStruct(ft reflect.Type, p *proxyJ) reflect.Type {
 	}
 	t := reflect.StructOf([]reflect.StructField{{Name: p.Path[len(p.Path)-1], Type: ft, Tag: tag}})
 	for i := len(p.Path) - 2; i >= 0; i-- {
-		t = reflect.StructOf([]reflect.StructField{{Name: p.Path[i], Type: t}})
+		inner := t
+		if i < len(p.PtrLevel) && p.PtrLevel[i] {
+			inner = reflect.PtrTo(t)
+		}
+		t = reflect.StructOf([]reflect.StructField{{Name: p.Path[i], Type: inner, Anonymous: i < len(p.Embed) && p.Embed[i]}})
 	}
 	return t
 }
@@ -876,6 +882,9 @@ func runCase(line []byte, out *json.Encoder) error {
 			}
 			fv := pv.Elem()
 			for range p.Path {
+				for fv.Kind() == reflect.Ptr {
+					fv = fv.Elem()
+				}
 				fv = fv.Field(0)
 			}
 			var inv []reflect.Value
